@@ -42,10 +42,17 @@ pub fn run(args: &Args) {
         "(L (nohydrate (el 104 (A (99 (d 0))) (C (dtext 0)))) (el 109 (A) (C (nohydrate (text 97)) (text 98) (dtext 1))))",
         "(L (dview 0 (alt (nohydrate (el 97 (A) (C))) (el 98 (A) (C (dtext 1)))) (alt (el 99 (A) (C)))))",
     ];
-    for f in fam_nh.iter().chain(fam.iter()) {
+    // Keyed lists under hydration (known finding D17: the server renders no markers for lists)
+    let fam_k: Vec<&str> = vec![
+        "(L (el 117.108 (A) (C (keyed 0))))",
+        "(L (el 117.108 (A) (C (text 97) (keyed 0) (dtext 1))))",
+        "(L (keyed 0) (el 112 (A) (C (dtext 1))))",
+        "(L (el 100 (A) (C (dview 1 (alt (text 120)) (alt (el 98 (A) (C)))) (keyed 0) (dview 1 (alt (text 121)) (alt)))))",
+    ];
+    for f in fam_k.iter().chain(fam_nh.iter()).chain(fam.iter()) {
         let Some(Sx::L(l)) = sx_parse(f) else { continue };
         let vds: Vec<VD> = l[1..].iter().map(|s| rd(s).unwrap()).collect();
-        for (st, ws) in [(vec![0u32, 0], "0=1,1=1,0=2,1=2"), (vec![1, 1], "1=2,0=0,0=1,1=3"), (vec![3, 2], "0=3,0=4,1=5")] { push(&vds, &st, ws); }
+        for (st, ws) in [(vec![0u32, 0], "0=1,1=1,0=2,1=2"), (vec![1, 1], "1=2,0=0,0=1,1=3"), (vec![3, 2], "0=3,0=4,1=5"), (vec![4, 1], "0=5,0=2,1=2,0=0")] { push(&vds, &st, ws); }
     }
     let with_show = args.extra.iter().any(|x| x == "--with-show");
     let n = if thorough { 100_000 } else { 3_000 };
